@@ -32,15 +32,57 @@
 //        contracts of find_best_end_depot_for_despawning / Network::end_depots_sorted_by_distance_from (slices/depot_choice.vs).
 //   C06  `expect("There should be at least the overflow depot available.")` inside find_best_start_depot_for_spawning cannot panic
 //        under the preconditions some_depot_has_room (improve_depots_of_tour) / dp_room_ok (improve_depots), see PRECONDITIONS.
+//   C10 / C09 / C11  CLOSURE -- the induction step "after any sequence of schedule modifications": the result of every function
+//        satisfies the SCHEDULE-INVARIANT part of its own precondition bundle again (obligations C10.<fn>.result_satisfies_the_
+//        schedule_invariants_again), derived from the bundle of the input and the EFFECT clauses of the contract by lemmas of
+//        env/depot_ops_shim.vs (last section; lemma_close_dp_end_reassigned / lemma_close_dp_improved / lemma_close_dp_same /
+//        lemma_rc_closure / lemma_close_transitions_listed take exactly the effect clauses as hypotheses).
+//        "Schedule invariant" = dp_ok, rc_base(.., all types / the given types), dp_transitions_ok(n); "about the arguments / the
+//        operation" (NOT closed) = listed_ok, dp_room_ok (the partial tables of THIS call), dp_counter_ok / rebuilt_small /
+//        rebuilt_all_small (A-counter, quantified over the possible results), `vehicles is Some / None`.
+//        * dp_ok (reassign_end_depots_greedily, improve_depots; recompute_transitions_for: `self.dp_ok() ==> r.dp_ok()`): instance
+//          validity (same network; improve_depots also: an end depot exists, start_depots_ok), listings (sched_vehicles(r) ==
+//          sched_vehicles(self): A-iter frame axiom, see ASSUMPTIONS; duplicate-free, <= 2^17, lists exactly the vehicles with a
+//          tour), ids / tours (every vehicle stored under its id, valid real tour of the network, exact caches, A-len), tours' costs
+//          <= costs (for improve_depots(Some) by lemma_costs_rest: the unlisted tours are untouched), usage table exact:
+//          UNCONDITIONAL (dp_ok_but_cost_bound).  The magnitude `costs <= 2^61` is NOT an invariant of the operations (a tour's
+//          costs may grow by one / two legs' costs): `r.costs <= sched_cost_bound() ==> r.dp_ok()`.
+//        * rc_base (recompute_transitions_and_violation_fast, recompute_transitions_for, reassign_end_depots_greedily,
+//          improve_depots(None)): the network's types duplicate-free and exactly the keys of the transitions, every listed type
+//          has an id list, every listed id has a (new) tour, violation == sum: UNCONDITIONAL (rc_struct).  The two magnitude
+//          conjuncts are NOT inductive as the bundle is written (rc_base does not relate the number of vehicles in a transition to
+//          the length of the id list): `violation <= 2^41 * vehicles of the transition` under lens_cover (hypothesis on the
+//          RESULT: every rebuilt transition holds at least as many vehicles as the id list lists), `at most 2^18 vehicles in
+//          transitions and id lists` under lens_not_grown (every rebuilt transition holds no more vehicles than the one it
+//          replaces); both together ==> rc_base.  lemma_lens_from_exact: how a caller discharges them (given_ok for the id lists:
+//          the rebuilt transitions hold EXACTLY the listed vehicles; and the old ones held at least as many).
+//        * dp_transitions_ok(n) (improve_depots(Some(list)), same n): all conjuncts UNCONDITIONAL, including the magnitude
+//          `len_sum + n <= 2^17`: before and after, every transition holds exactly the vehicles of its type and the vehicles are
+//          untouched, so it holds as many vehicles as before (counting: dpcl_lemma_total_len_is_lookup, text of env/sched_ctor_shim.vs).
+//        * improve_depots_of_tour returns a tour: the tour part of its precondition (wf, real, network, caches, A-len) holds again.
+//   C15 / C10  rebuilt_exact (NEW effect clause of the four functions that rebuild transitions): the transition of every listed
+//        type whose id list and (new) tours meet the precondition of Transition::new_fast (given_ok) is consistent with the tours
+//        (Transition::wf), holds exactly the listed vehicles, has no empty cycle slot -- from the contract slices/new_fast.vs
+//        justifies, see A-stub.
 //
 // ASSUMPTIONS introduced / used by this slice:
 //   A-stub   not verified in any slice, contract written from the body / doc comment:
 //            Transition::new_fast  (result = uninterpreted spec_new_fast(ids, tours, network); requires every listed id to have a
-//                 tour; NOTHING else is known about the rebuilt transition -- in particular NOT that it is consistent with the
-//                 tours (C15) or holds exactly the listed vehicles (C10));
+//                 tour -- as before.  CHANGED: the stub now also carries the contract that slices/new_fast.vs justifies (see its
+//                 header: verified fragments + proved composition lemma, plumbing pinned by token hash), in CONDITIONAL form
+//                 `given_ok(network, tours, vehicles) ==> new_fast_post(r, ..)`: wf w.r.t. the tours, exactly the listed
+//                 vehicles as members, total_len == number listed, no empty cycle slot, violation within [0, len * 2^41].
+//                 given_ok (admissible tours with counters within +-2^40, no vehicle listed twice, <= 2^17 vehicles) is NOT made
+//                 a precondition: the functions of this slice do not demand it of their callers (other slices stub them with the
+//                 present preconditions); without it nothing but spec_new_fast is known about the result, as before);
 //            Tour::last_non_depot / Tour::first_non_depot  (is_last_non_depot / is_first_non_depot: the doc comment)
 //   A-iter   Schedule::vehicles_iter_all = sched_vehicles (uninterpreted order; text of slices/reassign.vs), VehicleTypes::iter =
 //            ids_sorted (text of slices/admission.vs); `for x in vec.iter()`: vstd's slice iterator
+//            NEW (closure): axiom_sched_vehicles_frame (env/depot_ops_shim.vs) -- sched_vehicles(a) == sched_vehicles(b) whenever the
+//            two schedules have the same network vehicle types and the same vehicle_ids_grouped_and_sorted (the body of
+//            vehicles_iter_all reads nothing else: `network.vehicle_types().iter()` flat-mapped over `vehicle_ids_grouped_and_
+//            sorted[&vt].iter().copied()`).  Needed for EVERY listing conjunct of dp_ok of the result (sched_vehicles is
+//            uninterpreted per schedule); the alternative is to take `sched_vehicles(r) == sched_vehicles(self)` as a premise.
 //   R7a stubs (verified elsewhere with the SAME contract text; tools/stub_sync.py reports no difference):
 //            Network::end_depots_sorted_by_distance_from, Schedule::find_best_start_depot_for_spawning,
 //            Schedule::find_best_end_depot_for_despawning (depot_choice; WITH their preconditions; the vocabulary of these contracts
@@ -101,8 +143,14 @@
 //   * improve_depots: WHICH start depot a listed vehicle gets is not stated at the level of improve_depots (the table consulted
 //     is internal: only depots_replaced -- members of the depot node lists); depot capacities (C02) w.r.t. the FINAL table;
 //     that the callers establish dp_room_ok (C17 is not connected to it);
-//   * what Transition::new_fast builds (C15 / C10 for the rebuilt transitions), see A-stub;
-//   * that the results satisfy dp_ok / rc_base / dp_transitions_ok again beyond what the postconditions state; error message texts;
+//   * what Transition::new_fast builds when its precondition given_ok is NOT met (see A-stub); that the callers meet given_ok
+//     (id lists duplicate-free: C10 listing_sorted; counters within +-2^40: A-counter) -- rebuilt_exact is conditional on it;
+//   * closure: the two magnitude conjuncts of rc_base only under lens_cover / lens_not_grown, `costs <= 2^61` only as a premise
+//     (see CLOSURE above); NOT closed: improve_depots(Some) does not give rc_base and improve_depots(None) /
+//     reassign_end_depots_greedily / recompute_transitions_for do not give dp_transitions_ok for the result (neither is in the
+//     respective precondition; dp_transitions_ok would need that the id list of a type lists exactly the vehicles of the type,
+//     which no bundle of this slice states); the argument-dependent clauses (dp_room_ok, listed_ok, A-counter) are not invariants;
+//     error message texts;
 //   * improve_depots(Some(list)) with a vehicle listed twice: the first loop's second `.remove(vehicle_id).unwrap()` panics
 //     (`called Option::unwrap() on a None value`, modifications.rs:657; confirmed by a cargo test on HEAD).  The doc comment only
 //     documents the panic for non-real vehicles; the callers in solver/ never pass duplicates.  Stated as precondition (listed_ok).
@@ -283,14 +331,22 @@ impl Clone for TransitionCycle {
         self.sorted_from(r@, location), // @obl C13.end_depots_sorted.ascending_distance_from_location
         self.ties_from(r@, location), // @obl C13.end_depots_sorted.ties_in_list_order
 //@end
-/// A-stub: Transition::new_fast (= Transition::one_cluster_per_maintenance) is NOT under contract anywhere: the result is
-/// an uninterpreted function of the arguments.  Precondition from the body (`tours.get(vehicle_id).unwrap()`)
+/// A-stub: Transition::new_fast (= Transition::one_cluster_per_maintenance).  The result is a function of the arguments
+/// (spec_new_fast: uninterpreted); precondition from the body (`tours.get(vehicle_id).unwrap()`) -- both as before.  NEW: the
+/// contract slices/new_fast.vs justifies for stubs (its header: verified fragments + proved composition lemma, plumbing pinned by
+/// its token hash), in CONDITIONAL form: IF the arguments meet the precondition under which that slice verifies the function
+/// (given_ok: admissible tours with counters within +-2^40, no vehicle listed twice, at most 2^17 vehicles) THEN the result is
+/// consistent with the tours (Transition::wf), holds exactly the listed vehicles, has no empty cycle slot and a violation within
+/// [0, len * 2^41] (new_fast_post).  given_ok is NOT made a precondition here: the depot-only operations do not require it of
+/// their callers (other slices stub them with the present preconditions), so what they say about the rebuilt transitions is
+/// conditional, too (rebuilt_exact).
 //@item solution/src/transition.rs Transition::new_fast : trusted
 //@retname r
 //@sig
     requires forall|j: int| 0 <= j < vehicles@.len() ==> tours@.contains_key(#[trigger] vehicles@[j]),
     ensures
         r == spec_new_fast(vehicles@, tours@, *network),
+        given_ok(network, tours@, vehicles@) ==> new_fast_post(&r, network, tours@, vehicles@),
 //@end
 
 // =====================================================================================================
@@ -306,6 +362,17 @@ impl Clone for TransitionCycle {
         self.rc_post(old(transitions)@, final(transitions)@, vehicle_ids_grouped_by_type@, tours@, vehicle_types@), // @obl C09.recompute_transitions.listed_types_rebuilt_others_untouched
         // C09: "the schedule's maintenance violation equals its from-scratch value"
         *final(maintenance_violation) == viol_sum(final(transitions)@, sched_types(self)), // @obl C09.recompute_transitions.violation_sum
+        // C15 / C10 for the rebuilt transitions (contract of Transition::new_fast, slices/new_fast.vs): the transition of every listed
+        // type whose id list / tours meet given_ok is consistent with the given tours and holds exactly the listed vehicles
+        rebuilt_exact(&self.network, final(transitions)@, vehicle_ids_grouped_by_type@, tours@, vehicle_types@), // @obl C15.recompute_transitions.rebuilt_consistent_with_tours_exact_members
+        // CLOSURE: rc_base holds again for the new transitions / violation.  ids / listings / violation sum (rc_struct): unconditional
+        self.rc_struct(final(transitions)@, *final(maintenance_violation) as int, vehicle_ids_grouped_by_type@, tours@, vehicle_types@), // @obl C10.recompute_transitions.result_satisfies_the_schedule_invariants_again
+        // magnitudes (not invariants of the operation without a hypothesis on the rebuilt transitions): violation <= 2^41 per vehicle
+        // if the rebuilt transitions hold at least the listed vehicles; at most 2^18 vehicles if they hold no more than the old ones
+        lens_cover(final(transitions)@, vehicle_ids_grouped_by_type@, vehicle_types@) ==> rc_viol_small(final(transitions)@), // @obl C10.recompute_transitions.result_satisfies_the_schedule_invariants_again
+        lens_not_grown(old(transitions)@, final(transitions)@, vehicle_types@) ==> self.rc_cap_small(final(transitions)@, vehicle_ids_grouped_by_type@), // @obl C10.recompute_transitions.result_satisfies_the_schedule_invariants_again
+        lens_cover(final(transitions)@, vehicle_ids_grouped_by_type@, vehicle_types@) && lens_not_grown(old(transitions)@, final(transitions)@, vehicle_types@)
+            ==> self.rc_base(final(transitions)@, *final(maintenance_violation) as int, vehicle_ids_grouped_by_type@, tours@, vehicle_types@), // @obl C10.recompute_transitions.result_satisfies_the_schedule_invariants_again
 //@first
         let ghost trs0 = transitions@;
         let ghost mv0 = *maintenance_violation as int;
@@ -323,6 +390,7 @@ impl Clone for TransitionCycle {
                 self.rc_pre(trs0, mv0, ids, tours@, list),
                 self.rc_inv(trs0, transitions@, ids, tours@, list, it.index@ as int), // @obl C09.recompute_transitions.listed_types_rebuilt_others_untouched
                 forall|vt: VehicleTypeIdx| type_done(list, it.index@ as int, vt) ==> Schedule::rebuilt_small(ids, tours@, *self.network, vt),
+                forall|vt: VehicleTypeIdx| type_done(list, it.index@ as int, vt) ==> rebuilt_ok(ids, tours@, *self.network, vt), // @obl C15.recompute_transitions.rebuilt_consistent_with_tours_exact_members
                 *maintenance_violation == viol_sum(transitions@, sched_types(self)), // @obl C09.recompute_transitions.violation_sum
 //@before "let vehicle_ids"
             let ghost k = it.index@ as int;
@@ -361,6 +429,7 @@ impl Clone for TransitionCycle {
             proof {
                 assert(new_transition == rebuilt(ids, tours@, *self.network, vt));
                 assert(Schedule::rebuilt_small(ids, tours@, *self.network, vt));
+                assert(rebuilt_ok(ids, tours@, *self.network, vt)); // @obl C15.recompute_transitions.rebuilt_consistent_with_tours_exact_members
             }
 //@after "*maintenance_violation -="
             proof {
@@ -374,6 +443,9 @@ impl Clone for TransitionCycle {
                     if x != vt { assert(trs_k.contains_key(x)); }
                 }
                 assert forall|x: VehicleTypeIdx| type_done(list, k + 1, x) implies Schedule::rebuilt_small(ids, tours@, *self.network, x) by {
+                    assert(type_done(list, k + 1, x) <==> (type_done(list, k, x) || x == list[k]));
+                }
+                assert forall|x: VehicleTypeIdx| type_done(list, k + 1, x) implies rebuilt_ok(ids, tours@, *self.network, x) by {
                     assert(type_done(list, k + 1, x) <==> (type_done(list, k, x) || x == list[k]));
                 }
             }
@@ -390,6 +462,19 @@ impl Clone for TransitionCycle {
                     assert(0 <= j < n && list[j] == x);
                 }
             }
+            // C15 / C10 for the rebuilt transitions
+            assert(rebuilt_exact(&self.network, transitions@, ids, tours@, list)) by {
+                assert forall|i: int| 0 <= i < list.len() && given_ok(&self.network, tours@, ids[#[trigger] list[i]]@)
+                    implies new_fast_post(&transitions@[list[i]], &self.network, tours@, ids[list[i]]@) by {
+                    assert(type_done(list, n, list[i]));
+                    assert(list.contains(list[i]));
+                    assert(sched_types(self).contains(list[i]));
+                    assert(trs0.contains_key(list[i]) && transitions@.contains_key(list[i]));
+                    assert(rebuilt_ok(ids, tours@, *self.network, list[i]));
+                }
+            }
+            // CLOSURE of rc_base
+            lemma_rc_closure(self, trs0, mv0, transitions@, *maintenance_violation as int, ids, tours@, list); // @obl C10.recompute_transitions.result_satisfies_the_schedule_invariants_again
         }
 //@end
 
@@ -427,6 +512,31 @@ impl Clone for TransitionCycle {
         // recompute_transitions_and_violation_fast), the maintenance violation is their sum
         r is Ok ==> self.rc_post(self.next_period_transitions@, r->Ok_0.next_period_transitions@, self.vehicle_ids_grouped_and_sorted@, r->Ok_0.tours@, sched_types(self))
             && r->Ok_0.maintenance_violation == viol_sum(r->Ok_0.next_period_transitions@, sched_types(self)), // @obl C09.reassign_end_depots_greedily.transitions_recomputed
+        // C15 / C10 for the rebuilt transitions (contract of Transition::new_fast, slices/new_fast.vs): the transition of every type
+        // whose id list / new tours meet given_ok is consistent with the new tours and holds exactly the listed vehicles
+        r is Ok ==> rebuilt_exact(&r->Ok_0.network, r->Ok_0.next_period_transitions@, r->Ok_0.vehicle_ids_grouped_and_sorted@, r->Ok_0.tours@, sched_types(&r->Ok_0)), // @obl C15.reassign_end_depots_greedily.rebuilt_consistent_with_tours_exact_members
+        // CLOSURE (induction step of C10 / C09): the result satisfies the invariant bundle dp_ok + rc_base of this precondition again.
+        // dp_ok -- instance validity, listings (the listing is the input's: A-iter frame), ids / tours (every vehicle stored under its
+        // id with a valid real tour of the network with exact caches), costs >= the tours' costs, usage table exact: unconditional
+        r is Ok ==> sched_vehicles(&r->Ok_0) == sched_vehicles(self), // @obl C10.reassign_end_depots_greedily.result_satisfies_the_schedule_invariants_again
+        r is Ok ==> r->Ok_0.dp_ok_but_cost_bound(), // @obl C10.reassign_end_depots_greedily.result_satisfies_the_schedule_invariants_again
+        // magnitude `costs <= 2^61`: NOT an invariant of the operation (each tour's costs may grow by one leg's costs)
+        r is Ok && r->Ok_0.costs <= sched_cost_bound() ==> r->Ok_0.dp_ok(), // @obl C10.reassign_end_depots_greedily.result_satisfies_the_schedule_invariants_again
+        // rc_base -- types / one transition per type / id lists / listed ids have tours / violation sum: unconditional
+        r is Ok ==> r->Ok_0.rc_struct(r->Ok_0.next_period_transitions@, r->Ok_0.maintenance_violation as int, r->Ok_0.vehicle_ids_grouped_and_sorted@, r->Ok_0.tours@, sched_types(&r->Ok_0)), // @obl C10.reassign_end_depots_greedily.result_satisfies_the_schedule_invariants_again
+        // rc_base magnitudes, under a hypothesis on the rebuilt transitions each (see lens_cover / lens_not_grown, env/depot_ops_shim.vs)
+        r is Ok && lens_cover(r->Ok_0.next_period_transitions@, r->Ok_0.vehicle_ids_grouped_and_sorted@, sched_types(&r->Ok_0))
+            ==> rc_viol_small(r->Ok_0.next_period_transitions@), // @obl C10.reassign_end_depots_greedily.result_satisfies_the_schedule_invariants_again
+        r is Ok && lens_not_grown(self.next_period_transitions@, r->Ok_0.next_period_transitions@, sched_types(&r->Ok_0))
+            ==> r->Ok_0.rc_cap_small(r->Ok_0.next_period_transitions@, r->Ok_0.vehicle_ids_grouped_and_sorted@), // @obl C10.reassign_end_depots_greedily.result_satisfies_the_schedule_invariants_again
+        r is Ok && lens_cover(r->Ok_0.next_period_transitions@, r->Ok_0.vehicle_ids_grouped_and_sorted@, sched_types(&r->Ok_0))
+            && lens_not_grown(self.next_period_transitions@, r->Ok_0.next_period_transitions@, sched_types(&r->Ok_0))
+            ==> r->Ok_0.rc_base(r->Ok_0.next_period_transitions@, r->Ok_0.maintenance_violation as int, r->Ok_0.vehicle_ids_grouped_and_sorted@, r->Ok_0.tours@, sched_types(&r->Ok_0)), // @obl C10.reassign_end_depots_greedily.result_satisfies_the_schedule_invariants_again
+//@first
+        // the closure vocabulary stays folded in this function: the clauses come from lemma_close_dp_end_reassigned_all /
+        // lemma_close_rc_all and from the postcondition of recompute_transitions_and_violation_fast
+        hide(Schedule::dp_ok_but_cost_bound); hide(Schedule::rc_struct); hide(Schedule::rc_cap_small); hide(rc_viol_small);
+        hide(lens_cover); hide(lens_not_grown); hide(rebuilt_exact);
 //@loop "for vehicle_id in"
             invariant
                 self.dp_ok(),
@@ -528,6 +638,12 @@ impl Clone for TransitionCycle {
             assert(self.all_end_reassigned(tours@));
             assert(self.rebuilt_all_small(tours@));
         }
+//@after "self.recompute_transitions_and_violation_fast"
+        proof {
+            // CLOSURE of dp_ok, from the effect clauses (whatever schedule is built from these parts)
+            lemma_close_dp_end_reassigned_all(self); // @obl C10.reassign_end_depots_greedily.result_satisfies_the_schedule_invariants_again
+            lemma_close_rc_all(self, next_period_transitions@, maintenance_violation as int, self.vehicle_ids_grouped_and_sorted@, tours@, sched_types(self));
+        }
 //@end
 
 // =====================================================================================================
@@ -551,8 +667,30 @@ impl Clone for TransitionCycle {
         self.rc_post(self.next_period_transitions@, r.next_period_transitions@, self.vehicle_ids_grouped_and_sorted@, self.tours@,
             if vehicle_types is Some { vehicle_types->Some_0@ } else { sched_types(self) })
             && r.maintenance_violation == viol_sum(r.next_period_transitions@, sched_types(self)), // @obl C09.recompute_transitions_for.transitions_recomputed
+        // C15 / C10 for the rebuilt transitions (contract of Transition::new_fast, slices/new_fast.vs): the transition of every given
+        // type whose id list / tours meet given_ok is consistent with the tours and holds exactly the listed vehicles
+        rebuilt_exact(&r.network, r.next_period_transitions@, r.vehicle_ids_grouped_and_sorted@, r.tours@,
+            if vehicle_types is Some { vehicle_types->Some_0@ } else { sched_types(self) }), // @obl C15.recompute_transitions_for.rebuilt_consistent_with_tours_exact_members
+        // CLOSURE: the result satisfies rc_base again (for the same types).  ids / listings / violation sum: unconditional
+        r.rc_struct(r.next_period_transitions@, r.maintenance_violation as int, r.vehicle_ids_grouped_and_sorted@, r.tours@,
+            if vehicle_types is Some { vehicle_types->Some_0@ } else { sched_types(self) }), // @obl C10.recompute_transitions_for.result_satisfies_the_schedule_invariants_again
+        // magnitudes, under a hypothesis on the rebuilt transitions each (see lens_cover / lens_not_grown, env/depot_ops_shim.vs)
+        lens_cover(r.next_period_transitions@, r.vehicle_ids_grouped_and_sorted@, if vehicle_types is Some { vehicle_types->Some_0@ } else { sched_types(self) })
+            ==> rc_viol_small(r.next_period_transitions@), // @obl C10.recompute_transitions_for.result_satisfies_the_schedule_invariants_again
+        lens_not_grown(self.next_period_transitions@, r.next_period_transitions@, if vehicle_types is Some { vehicle_types->Some_0@ } else { sched_types(self) })
+            ==> r.rc_cap_small(r.next_period_transitions@, r.vehicle_ids_grouped_and_sorted@), // @obl C10.recompute_transitions_for.result_satisfies_the_schedule_invariants_again
+        lens_cover(r.next_period_transitions@, r.vehicle_ids_grouped_and_sorted@, if vehicle_types is Some { vehicle_types->Some_0@ } else { sched_types(self) })
+            && lens_not_grown(self.next_period_transitions@, r.next_period_transitions@, if vehicle_types is Some { vehicle_types->Some_0@ } else { sched_types(self) })
+            ==> r.rc_base(r.next_period_transitions@, r.maintenance_violation as int, r.vehicle_ids_grouped_and_sorted@, r.tours@,
+                if vehicle_types is Some { vehicle_types->Some_0@ } else { sched_types(self) }), // @obl C10.recompute_transitions_for.result_satisfies_the_schedule_invariants_again
+        // CLOSURE of dp_ok (not a precondition of this function; everything dp_ok reads is kept): if the input satisfies it, so does the result
+        self.dp_ok() ==> r.dp_ok(), // @obl C10.recompute_transitions_for.result_satisfies_the_schedule_invariants_again
 //@closure unwrap_or_else#0
     -> (q: Vec<VehicleTypeIdx>) ensures q@ == sched_types(self)
+//@after "self.recompute_transitions_and_violation_fast"
+        proof {
+            if self.dp_ok() { lemma_close_dp_same_all(self); } // @obl C10.recompute_transitions_for.result_satisfies_the_schedule_invariants_again
+        }
 //@end
 
 // =====================================================================================================
@@ -675,6 +813,8 @@ impl Clone for TransitionCycle {
         self.network.nearest_end_depot(sp_end_depot(&r), self.network.sp_node(tour.nodes@[tour.nodes@.len() - 2]).sp_end_location()), // @obl C13.improve_depots_of_tour.nearest_end_depot_capacities_ignored
         // C09 (magnitude): only the first and the last leg change, so the costs change by at most two legs' costs
         -2 * leg_cost_bound() <= r.costs - tour.costs <= 2 * leg_cost_bound(), // @obl C09.improve_depots_of_tour.costs_change_by_two_legs_at_most
+        // CLOSURE (the result is a tour, not a schedule): what this precondition demands of the given tour holds for the result again
+        r.wf() && !r.is_dummy && *r.network == *self.network && r.caches_ok() && tour_len_ok(r.nodes@), // @obl C10.improve_depots_of_tour.result_satisfies_the_schedule_invariants_again
 //@first
         proof {
             assert forall|q: Option<NodeIdx>| is_first_non_depot(tour, q) implies q == Some(tour.nodes@[1]) && self.network.has(tour.nodes@[1]) by { lemma_first_non_depot(tour, q); }
@@ -816,8 +956,38 @@ impl Clone for TransitionCycle {
         vehicles is None ==> self.rc_post(self.next_period_transitions@, r.next_period_transitions@, self.vehicle_ids_grouped_and_sorted@, r.tours@, sched_types(self))
             && r.maintenance_violation == viol_sum(r.next_period_transitions@, sched_types(self)), // @obl C09.improve_depots.transitions_recomputed
         vehicles is Some ==> self.upd_post(self.next_period_transitions@, r.next_period_transitions@, r.maintenance_violation as int, vehicles->Some_0@, self.vehicles@, r.tours@), // @obl C09.improve_depots.transitions_updated
+        // C15 / C10 for the rebuilt transitions (None; contract of Transition::new_fast, slices/new_fast.vs): the transition of every
+        // type whose id list / new tours meet given_ok is consistent with the new tours and holds exactly the listed vehicles
+        vehicles is None ==> rebuilt_exact(&r.network, r.next_period_transitions@, r.vehicle_ids_grouped_and_sorted@, r.tours@, sched_types(&r)), // @obl C15.improve_depots.rebuilt_consistent_with_tours_exact_members
+        // CLOSURE (induction step of C10 / C09): the result satisfies the invariant bundle of this precondition again.
+        // dp_ok -- instance validity (the network is the input's: also `end depot exists` and start_depots_ok), listings (the listing
+        // is the input's: A-iter frame), ids / tours (every vehicle stored under its id with a valid real tour of the network with
+        // exact caches), costs >= the tours' costs, usage table exact: unconditional
+        sched_vehicles(&r) == sched_vehicles(self), // @obl C10.improve_depots.result_satisfies_the_schedule_invariants_again
+        r.dp_ok_but_cost_bound(), // @obl C10.improve_depots.result_satisfies_the_schedule_invariants_again
+        r.network.end_depot_nodes@.len() > 0 && r.network.start_depots_ok(), // @obl C10.improve_depots.result_satisfies_the_schedule_invariants_again
+        // magnitude `costs <= 2^61`: NOT an invariant of the operation (each listed tour's costs may grow by two legs' costs)
+        r.costs <= sched_cost_bound() ==> r.dp_ok(), // @obl C10.improve_depots.result_satisfies_the_schedule_invariants_again
+        // Some(list): dp_transitions_ok(n) for the same n -- one transition per type, consistent with the NEW tours, exact membership,
+        // violation sum, Vehicle-kind ids, AND the magnitude `len_sum + n <= 2^17` (every transition holds as many vehicles as before)
+        vehicles is Some ==> r.dp_transitions_ok(vehicles->Some_0@.len() as int), // @obl C10.improve_depots.result_satisfies_the_schedule_invariants_again
+        // None: rc_base -- types / one transition per type / id lists / listed ids have tours / violation sum: unconditional
+        vehicles is None ==> r.rc_struct(r.next_period_transitions@, r.maintenance_violation as int, r.vehicle_ids_grouped_and_sorted@, r.tours@, sched_types(&r)), // @obl C10.improve_depots.result_satisfies_the_schedule_invariants_again
+        // rc_base magnitudes, under a hypothesis on the rebuilt transitions each (see lens_cover / lens_not_grown, env/depot_ops_shim.vs)
+        vehicles is None && lens_cover(r.next_period_transitions@, r.vehicle_ids_grouped_and_sorted@, sched_types(&r))
+            ==> rc_viol_small(r.next_period_transitions@), // @obl C10.improve_depots.result_satisfies_the_schedule_invariants_again
+        vehicles is None && lens_not_grown(self.next_period_transitions@, r.next_period_transitions@, sched_types(&r))
+            ==> r.rc_cap_small(r.next_period_transitions@, r.vehicle_ids_grouped_and_sorted@), // @obl C10.improve_depots.result_satisfies_the_schedule_invariants_again
+        vehicles is None && lens_cover(r.next_period_transitions@, r.vehicle_ids_grouped_and_sorted@, sched_types(&r))
+            && lens_not_grown(self.next_period_transitions@, r.next_period_transitions@, sched_types(&r))
+            ==> r.rc_base(r.next_period_transitions@, r.maintenance_violation as int, r.vehicle_ids_grouped_and_sorted@, r.tours@, sched_types(&r)), // @obl C10.improve_depots.result_satisfies_the_schedule_invariants_again
 //@closure unwrap_or_else#0
     -> (q: Vec<VehicleIdx>) ensures q@ == sched_vehicles(self)
+//@first
+        // the closure vocabulary stays folded in this function: the clauses come from lemma_close_dp_improved_all /
+        // lemma_close_transitions_listed_all / lemma_close_rc_all and from the postcondition of recompute_transitions_and_violation_fast
+        hide(Schedule::dp_ok_but_cost_bound); hide(Schedule::rc_struct); hide(Schedule::rc_cap_small); hide(rc_viol_small);
+        hide(lens_cover); hide(lens_not_grown); hide(rebuilt_exact);
 //@after "let vehicle_ids"
         let ghost ids = vehicle_ids@;
         let ghost du0 = self.depot_usage@;
@@ -962,6 +1132,15 @@ impl Clone for TransitionCycle {
                 assert(self.all_depots_improved(sched_vehicles(self), tours@));
                 assert(self.rebuilt_all_small(tours@));
             }
+            // CLOSURE of dp_ok / dp_transitions_ok, from the effect clauses (whatever schedule is built from these parts)
+            lemma_close_dp_improved_all(self, ids); // @obl C10.improve_depots.result_satisfies_the_schedule_invariants_again
+            if vehicles is Some {
+                lemma_close_transitions_listed_all(self, ids, ids.len() as int); // @obl C10.improve_depots.result_satisfies_the_schedule_invariants_again
+            }
+        }
+//@after "if recompute_all"
+        proof {
+            lemma_close_rc_all(self, next_period_transitions@, maintenance_violation as int, self.vehicle_ids_grouped_and_sorted@, tours@, sched_types(self));
         }
 //@end
 
